@@ -91,6 +91,7 @@ typedef struct letter {
 // (seed 0 = freshly connected, others = forced letter prefix)
 typedef struct scen {
 	const variant *v;
+	int            peer2;   // a second socket of Y's kind is connected to X as well (letters recvZ, linkZ)
 	int            withctx; // a second context on every side that has contexts; its operations
 	                        // have no descriptor of their own but must not disturb the socket's
 	letter         al[20];
@@ -149,6 +150,13 @@ mk_alphabet(scen *sc, const variant *v)
 	}
 	if (v->sub)
 		sc->al[sc->nal++] = (letter){ L_SUBTOG, 1, 0 };
+	if (sc->peer2) {
+		if (v->rcv[1])
+			sc->al[sc->nal++] = (letter){ L_RECV, 2, 0 };
+		if (v->snd[1])
+			sc->al[sc->nal++] = (letter){ L_SEND, 2, 0 };
+		sc->al[sc->nal++] = (letter){ L_LINK, 2, 0 };
+	}
 	if (sc->withctx)
 		for (int s = 0; s < 2; s++) {
 			if (!has_ctx(v->name[s]))
@@ -227,39 +235,46 @@ run(void *arg)
 {
 	const scen    *sc = arg;
 	const variant *v  = sc->v;
-	nng_socket     s[2];
-	nng_dialer     d;
-	int            sfd[2] = { -1, -1 }, rfd[2] = { -1, -1 };
-	int            up = 1, subscribed = 0;
-	int            nsent[2]        = { 0, 0 }; // tags handed to nng_sendmsg
-	uint8_t        accepted[2][16] = { { 0 } };
-	uint8_t        route[2][64]; // last received header per side
-	size_t         routelen[2] = { 0, 0 };
+	nng_socket     s[3];
+	nng_dialer     d, d2;
+	int            sfd[3] = { -1, -1, -1 }, rfd[3] = { -1, -1, -1 };
+	int            up = 1, up2 = 1, subscribed = 0;
+	int            nsent[3]        = { 0, 0, 0 }; // tags handed to nng_sendmsg
+	uint8_t        accepted[3][16] = { { 0 } };
+	uint8_t        route[3][64]; // last received header per side
+	size_t         routelen[3] = { 0, 0, 0 };
+	const int      ns = sc->peer2 ? 3 : 2;
+#define VI(k) ((k) == 2 ? 1 : (k)) // side 2 is a second socket of Y's kind
+	static const char SIDE[] = "XYZ";
 	int            n_ok = 0, n_again = 0, n_other = 0, n_rd = 0;
 	char           hist[600] = "";
 	char           sig[96];
 
 	vh_init(0);
-	for (int i = 0; i < 2; i++) {
-		VH_OK(v->open[i](&s[i]));
+	for (int i = 0; i < ns; i++) {
+		VH_OK(v->open[VI(i)](&s[i]));
 		set_buf(s[i], 1);
 	}
 	if (v->sub) {
 		VH_OK(nng_sub0_socket_subscribe(s[1], "", 0));
+		if (ns == 3)
+			VH_OK(nng_sub0_socket_subscribe(s[2], "", 0));
 		subscribed = 1;
 	}
-	for (int i = 0; i < 2; i++) {
+	for (int i = 0; i < ns; i++) {
 		int rv = nng_socket_get_send_poll_fd(s[i], &sfd[i]);
-		if (rv != (v->snd[i] ? 0 : NNG_ENOTSUP))
+		if (rv != (v->snd[VI(i)] ? 0 : NNG_ENOTSUP))
 			vs_fail("harness:fd-support", "%s send poll fd -> %s",
-			    v->name[i], ename(rv));
+			    v->name[VI(i)], ename(rv));
 		rv = nng_socket_get_recv_poll_fd(s[i], &rfd[i]);
-		if (rv != (v->rcv[i] ? 0 : NNG_ENOTSUP))
+		if (rv != (v->rcv[VI(i)] ? 0 : NNG_ENOTSUP))
 			vs_fail("harness:fd-support", "%s recv poll fd -> %s",
-			    v->name[i], ename(rv));
+			    v->name[VI(i)], ename(rv));
 	}
 	VH_OK(nng_listen(s[0], "inproc://c15", NULL, 0));
 	VH_OK(nng_dial(s[1], "inproc://c15", &d, 0));
+	if (ns == 3)
+		VH_OK(nng_dial(s[2], "inproc://c15", &d2, 0));
 	nng_ctx cx[2];
 	int     hascx[2] = { 0, 0 };
 	for (int i = 0; i < 2 && sc->withctx; i++)
@@ -286,17 +301,16 @@ run(void *arg)
 		switch (x->kind) {
 		case L_SEND: {
 			int         k    = x->side;
-			const char *pn   = v->name[k];
+			const char *pn   = v->name[VI(k)];
 			int         P    = readable(sfd[k]);
 			int         seq  = nsent[k]++;
-			uint8_t     body[2] = { (uint8_t) (k ? 'Y' : 'X'),
-				    (uint8_t) seq };
+			uint8_t     body[2] = { (uint8_t) SIDE[k], (uint8_t) seq };
 			nng_msg    *m;
 			if (seq >= 16)
 				vs_fail("harness:tags", "more than 16 sends per side");
 			VH_OK(nng_msg_alloc(&m, 0));
 			VH_OK(nng_msg_append(m, body, 2));
-			switch (v->hdr[k]) {
+			switch (v->hdr[VI(k)]) {
 			case H_ID:
 				VH_OK(nng_msg_header_append_u32(
 				    m, 0x80000001u + (uint32_t) seq));
@@ -319,7 +333,7 @@ run(void *arg)
 			int64_t t0 = vs_now();
 			int     R  = nng_sendmsg(s[k], m, NNG_FLAG_NONBLOCK);
 			int64_t dt = vs_now() - t0;
-			snprintf(h, hr, "%ssend%c[P%d]=%s", sp, k ? 'Y' : 'X', P,
+			snprintf(h, hr, "%ssend%c[P%d]=%s", sp, SIDE[k], P,
 			    ename(R));
 			if (R != 0)
 				nng_msg_free(m); // (iv) still ours
@@ -361,13 +375,13 @@ run(void *arg)
 		} break;
 		case L_RECV: {
 			int         k  = x->side;
-			const char *pn = v->name[k];
+			const char *pn = v->name[VI(k)];
 			int         P  = readable(rfd[k]);
 			nng_msg    *m  = NULL;
 			int64_t     t0 = vs_now();
 			int         R  = nng_recvmsg(s[k], &m, NNG_FLAG_NONBLOCK);
 			int64_t     dt = vs_now() - t0;
-			snprintf(h, hr, "%srecv%c[P%d]=%s", sp, k ? 'Y' : 'X', P,
+			snprintf(h, hr, "%srecv%c[P%d]=%s", sp, SIDE[k], P,
 			    ename(R));
 			if (dt != 0)
 				VIOL(SIG(sig, pn, "recv", "blocked"),
@@ -387,8 +401,9 @@ run(void *arg)
 			if (R == 0) {
 				const uint8_t *b  = nng_msg_body(m);
 				size_t         bl = nng_msg_len(m);
-				int            pk = !k;
-				if (bl != 2 || b[0] != (pk ? 'Y' : 'X') ||
+				// X hears from Y (or Z); Y and Z hear from X
+				int            pk = k == 0 ? ((bl == 2 && b[0] == 'Z' && ns == 3) ? 2 : 1) : 0;
+				if (bl != 2 || b[0] != (uint8_t) SIDE[pk] ||
 				    b[1] >= nsent[pk] || !accepted[pk][b[1]]) {
 					snprintf(h + strlen(h), hr - strlen(h), "(%s)",
 					    vh_hex(b, bl > 8 ? 8 : bl));
@@ -399,7 +414,7 @@ run(void *arg)
 				}
 				snprintf(h + strlen(h), hr - strlen(h), "(%c%d)", b[0],
 				    b[1]);
-				if (v->hdr[k] == H_ROUTE) {
+				if (v->hdr[VI(k)] == H_ROUTE) {
 					routelen[k] = nng_msg_header_len(m);
 					if (routelen[k] > sizeof(route[k]))
 						routelen[k] = sizeof(route[k]);
@@ -469,6 +484,18 @@ run(void *arg)
 			snprintf(h, hr, "%sctxcycle%c", sp, k ? 'Y' : 'X');
 		} break;
 		case L_LINK:
+			if (x->side == 2) {
+				if (up2) {
+					VH_OK(nng_dialer_close(d2));
+					snprintf(h, hr, "%sdownZ", sp);
+				} else {
+					if (nng_dial(s[2], "inproc://c15", &d2, 0) != 0)
+						vs_fail("harness:redial", "[%s] dial Z", hist);
+					snprintf(h, hr, "%supZ", sp);
+				}
+				up2 = !up2;
+				break;
+			}
 			if (up) {
 				VH_OK(nng_dialer_close(d));
 				up = 0;
@@ -483,8 +510,8 @@ run(void *arg)
 			}
 			break;
 		case L_BUF:
-			for (int k = 0; k < 2; k++)
-				if (v->buf[k])
+			for (int k = 0; k < ns; k++)
+				if (v->buf[VI(k)])
 					set_buf(s[k], x->n);
 			snprintf(h, hr, "%sbuf=%d", sp, x->n);
 			break;
@@ -505,9 +532,12 @@ run(void *arg)
 	(void) hascx;
 	vs_outcome("s%d o%d a%d x%d p%d u%d", seed, n_ok, n_again, n_other, n_rd,
 	    up);
+	if (ns == 3)
+		nng_socket_close(s[2]);
 	nng_socket_close(s[1]);
 	nng_socket_close(s[0]);
 	vh_fini();
+#undef VI
 }
 
 // ---- driver --------------------------------------------------------------------
@@ -719,18 +749,25 @@ main(int argc, char **argv)
 	int    maxd  = T ? 6 : 5;
 	double need  = T ? 90 : 6;
 	int    dmin = 99, dmax = 0, sdmin = 99, sdmax = 0, skipped = 0;
-	static scen SC[2 * NV];
-	for (int ii = 0; ii < 2 * NV; ii++) {
+	static scen SC[3 * NV];
+	for (int ii = 0; ii < 3 * NV; ii++) {
 		int   i  = ii % NV;
 		scen *sc = &SC[ii];
-		sc->withctx = ii >= NV;
+		sc->withctx = ii >= NV && ii < 2 * NV;
+		sc->peer2   = ii >= 2 * NV;
 		if (sc->withctx && !has_ctx(V[i].name[0]) && !has_ctx(V[i].name[1]))
+			continue;
+		// a second peer: the one-to-many protocols (two pullers, two subscribers, two
+		// respondents, three bus nodes), cooked and raw push
+		if (sc->peer2 && strcmp(V[i].scen, "push-pull") && strcmp(V[i].scen, "pub-sub") &&
+		    strcmp(V[i].scen, "surveyor-respondent") && strcmp(V[i].scen, "bus") &&
+		    strcmp(V[i].scen, "xpush-xpull"))
 			continue;
 		mk_alphabet(sc, &V[i]);
 		// seed 0: the initial (connected, empty) state
 		// (the context scenarios have 10-11 letters: depth 3 from every start state)
-		long cap = sc->withctx ? (T ? 170000 : 1500) : cap0;
-		long capsd = sc->withctx ? (T ? 15000 : 1500) : capsd0;
+		long cap = (sc->withctx || sc->peer2) ? (T ? 170000 : 1500) : cap0;
+		long capsd = (sc->withctx || sc->peer2) ? (T ? 15000 : 1500) : capsd0;
 		sc->npre[0]  = 0;
 		sc->depth[0] = depth_for(sc->nal, cap, maxd);
 		sc->nseed    = 1;
@@ -769,9 +806,9 @@ main(int argc, char **argv)
 		memset(&c, 0, sizeof(c));
 		c.prop     = "C15";
 		c.scenario = V[i].scen;
-		if (sc->withctx) {
+		if (sc->withctx || sc->peer2) {
 			char nm[64];
-			snprintf(nm, sizeof(nm), "%s-ctx", V[i].scen);
+			snprintf(nm, sizeof(nm), "%s-%s", V[i].scen, sc->peer2 ? "2peers" : "ctx");
 			c.scenario = strdup(nm);
 		}
 		c.run      = run;
